@@ -14,7 +14,7 @@ Definition w_req (v : bytes) : request := mkReq M_GET (B "/v") None [(B "x-v", v
 (** ---- handle_vary_missing pushed every computed variant (repo commit 89dc992) ---- *)
 (** page /v varies on x-v; variant "a" is cacheable, the handler declares NO server caching for variant "b" *)
 Definition w1_cx : configx :=
-  mkCfgX (w_cfg false [] w_vary) [w_xh (mkH (B "/v") 2 200 (B "b=") [] SP_NONE 0 false [])] 0 None false true true true true.
+  mkCfgX (w_cfg false [] w_vary) [w_xh (mkH (B "/v") 2 200 (B "b=") [] SP_NONE 0 false [])] 0 None false true true true true true.
 Definition w1_ops : list opx := [XReq (w_req (B "a")); XReq (w_req (B "b"))].
 
 Lemma vary_push_admission_refuted_w :
@@ -34,7 +34,7 @@ Proof. eexists. split; [vm_compute; reflexivity|]. split; reflexivity. Qed.
 (** variant "b" carries max-age=1, variant "a" never expires: "b" is served 2.5 s after it was stored *)
 Definition w2_cx : configx :=
   mkCfgX (w_cfg false [] w_vary) [w_xh (mkH (B "/v") 2 200 (B "b=") [(B "cache-control", B "max-age=1")] SP_FULL 0 false [])]
-         0 None false true true true true.
+         0 None false true true true true true.
 Definition w2_ops : list opx := [XReq (w_req (B "a")); XReq (w_req (B "b")); XWait 2500].
 
 Lemma variant_lifetime_refuted_w :
@@ -50,7 +50,7 @@ Qed.
 (** ---- the insert key was built from the request URI, the lookup key from the override URI (16171bb) ---- *)
 Definition w3_cx : configx :=
   mkCfgX (w_cfg false [mkH (B "/p") 0 200 (B "page") [] SP_FULL 0 false []; mkH (B "/./int") 0 200 (B "internal") [] SP_FULL 0 false []] [])
-         [] 0 (Some (B "x-int", B "/./int")) true false true true true.
+         [] 0 (Some (B "x-int", B "/./int")) true false true true true true.
 Definition w3_ops : list opx :=
   [XReq (mkReq M_GET (B "/p") None [(B "x-int", B "1")] 1); XReq (mkReq M_GET (B "/p") None [] 1)].
 Definition bodies (l : list obsx) : list bytes := map (fun o => match o with XbReply rp _ => rx_body rp | _ => [] end) l.
@@ -62,7 +62,7 @@ Proof. split; vm_compute; reflexivity. Qed.
 
 (** ---- clear_page keyed the URI as given, not what the default redirect makes of it (5007207) ---- *)
 Definition w4_cx : configx :=
-  mkCfgX (w_cfg true [mkH (B "/a/index.html") 2 200 (B "n=") [] SP_FULL 0 false []] []) [] 0 None true true false true true.
+  mkCfgX (w_cfg true [mkH (B "/a/index.html") 2 200 (B "n=") [] SP_FULL 0 false []] []) [] 0 None true true false true true true.
 Definition w4_r : request := mkReq M_GET (B "/a/") None [] 1.
 
 Lemma clear_unprimed_refuted_w :
@@ -73,7 +73,7 @@ Proof. do 2 eexists. split; [vm_compute; reflexivity|]. split; reflexivity. Qed.
 (** ---- a stream without length got a vary header from the cached-item arm only (1ffc338) ---- *)
 Definition w5_cx : configx :=
   mkCfgX (w_cfg false [] w_vary) [mkXH (B "/v") (B "x-v") [mkBeh (B "a") w_A 0 0; mkBeh (B "b") (mkH (B "/v") 2 200 (B "b=") [] SP_FULL 0 false []) 0 1]]
-         0 None true true true false true.
+         0 None true true true false true true.
 Definition vary_of (l : list obsx) : list (option bytes) :=
   map (fun o => match o with XbReply rp _ => assoc (B "vary") (rx_headers rp) | _ => None end) l.
 
@@ -88,7 +88,7 @@ Definition w6_cx : configx :=
   mkCfgX (w_cfg false [] w_vary)
          [mkXH (B "/v") (B "x-v") [mkBeh (B "a") (mkH (B "/v") 0 200 (B "static-a") [] SP_FULL 0 false []) 0 0;
                                     mkBeh (B "b") (mkH (B "/v") 1 200 (B "b:") [] SP_QUERY 0 false []) 0 0]]
-         0 None true true true true false.
+         0 None true true true true false true.
 Definition w6_req (q v : bytes) : request := mkReq M_GET (B "/v") (Some q) [(B "x-v", v)] 1.
 Definition w6_ops : list opx := [XReq (w6_req (B "x=1") (B "a")); XReq (w6_req (B "x=1") (B "b")); XReq (w6_req (B "x=2") (B "b"))].
 
@@ -96,3 +96,14 @@ Lemma qm_variant_refuted_w :
   bodies (run_cfgx true w6_cx w6_ops) = [B "static-a"; B "b:/v?x=1"; B "b:/v?x=1"] /\
   bodies (run_cfgx false w6_cx w6_ops) = [B "static-a"; B "b:/v?x=1"; B "b:/v?x=2"].
 Proof. split; vm_compute; reflexivity. Qed.
+
+(** ---- 304 was decided before the variant was looked up (the last repair) ---- *)
+(** the handler declares NO server caching for variant "b"; the page has an entry (variant "a"): a request for "b"
+    with If-Modified-Since = the scenario start was answered 304 without invoking the handler *)
+Definition w7_cx : configx :=
+  mkCfgX (w_cfg false [] w_vary) [w_xh (mkH (B "/v") 2 200 (B "b=") [] SP_NONE 0 false [])] 0 None true true true true true false.
+Definition w7_ops : list opx :=
+  [XReq (w_req (B "a")); XReq (mkReq M_GET (B "/v") None [(B "x-v", B "b"); (B "if-modified-since", B "@T+0")] 1)].
+Lemma ims_unstored_variant_refuted_w :
+  exists rp, nth 1 (run_cfgx true w7_cx w7_ops) XbNone = XbReply rp [] /\ rx_status rp = 304.
+Proof. eexists. split; [vm_compute; reflexivity | reflexivity]. Qed.
